@@ -4,6 +4,7 @@
    !!glob nodes at all, the generator restricts itself to a tiny fragment whose meaning is
    written down here:
      regex :  ['^'] piece* ['$'],  piece = literal | '(' literal ')' ['?'] | '(?P<name>' literal ')' ['?']
+                                         | '(' ['?P<name>'] ("[0-9]*" | "[a-z]*") ')'   (greedy star group: can capture "")
               literal over [A-Za-z0-9 =:_/-]; leftmost-first (backtracking) semantics;
               at least one mandatory non-empty piece (so that no match is empty)
      glob  :  literal characters and '*' (any sequence), full match
@@ -15,7 +16,11 @@ Open Scope N_scope.
 Definition lit_char (c : N) : bool :=
   is_word c || (c =? 32) || (c =? 61) || (c =? 58) || (c =? 47) || (c =? 45).
 
-Inductive piece := PcLit (s : bytes) | PcGroup (name : bytes) (s : bytes) (opt : bool).
+Inductive piece := PcLit (s : bytes) | PcGroup (name : bytes) (s : bytes) (opt : bool)
+  | PcStar (name : bytes) (cls : N).   (* '(' [name] "[0-9]*" ')' (cls 0) or "[a-z]*" (cls 1): greedy, may capture "" *)
+
+Definition star_char (cls c : N) : bool :=
+  if cls =? 0 then (48 <=? c) && (c <=? 57) else (97 <=? c) && (c <=? 122).
 
 (* pieces up to an optional trailing '$' *)
 Fixpoint parse_pieces (fuel : nat) (s : bytes) : option (list piece * bool) :=
@@ -39,6 +44,16 @@ Fixpoint parse_pieces (fuel : nat) (s : bytes) : option (list piece * bool) :=
       | Some nm =>
         let (l, r) := span lit_char body in
         match l, r with
+        | [], 91 :: 48 :: 45 :: 57 :: 93 :: 42 :: 41 :: r2 =>
+          match parse_pieces f r2 with
+          | Some (ps, e) => Some (PcStar nm 0 :: ps, e)
+          | None => None
+          end
+        | [], 91 :: 97 :: 45 :: 122 :: 93 :: 42 :: 41 :: r2 =>
+          match parse_pieces f r2 with
+          | Some (ps, e) => Some (PcStar nm 1 :: ps, e)
+          | None => None
+          end
         | _ :: _, 41 :: r1 =>
           let (opt, r2) := match r1 with 63 :: r2 => (true, r2) | _ => (false, r1) end in
           match parse_pieces f r2 with
@@ -94,6 +109,13 @@ Fixpoint m_pieces (ps : list piece) (endanch : bool) (v : bytes) (pos : nat) : o
         end
       else None
     end
+  | PcStar _ cls :: ps' =>
+    (* greedy star with backtracking: the longest run first, then shorter ones down to the empty capture *)
+    (fix try (k : nat) : option (list (Z * Z) * nat) :=
+       match m_pieces ps' endanch (skipn k v) (pos + k) with
+       | Some (caps, e) => Some ((Z.of_nat pos, Z.of_nat (pos + k)) :: caps, e)
+       | None => match k with O => None | S k' => try k' end
+       end) (length (fst (span (star_char cls) v)))
   end.
 
 (* leftmost match of the pieces in v (offsets are relative to the whole value: pos) *)
@@ -128,7 +150,7 @@ Definition tiny_re_match (pat v : bytes) : bool :=
 Definition tiny_re_names (pat : bytes) : list bytes :=
   match parse_re pat with
   | Some (_, ps, _) =>
-    [] :: flat_map (fun p => match p with PcGroup nm _ _ => [nm] | PcLit _ => [] end) ps
+    [] :: flat_map (fun p => match p with PcGroup nm _ _ => [nm] | PcStar nm _ => [nm] | PcLit _ => [] end) ps
   | None => [[]]
   end.
 
